@@ -23,7 +23,8 @@ from ..codec import ARITY, OffLattice, decode_gate, rec
 from ..lib import CheckResult, Violation
 from ..qasmio import ReaderError, gate_ins, ins
 
-M = 5
+M = 4            # ring level of the main batch (angles k*pi/4)
+M_FINE = 5       # thorough tier: decomposed gates on the finer lattice k*pi/8
 N = 1 << M
 PID = "C67"
 
@@ -37,7 +38,7 @@ PAULI_REF = {1: [rec("Hadamard", [0])], 2: [rec("S", [0], mods=[{"t": "adj"}]), 
              4: [rec("RY", [0], [-(N // 16)])]}          # X, Y, Z, Hadamard -> gates mapping the eigenbasis to the Z basis
 
 
-def native_gate(rng, n):
+def native_gate(rng, n, N=N):
     while True:
         r = rng.random()
         if r < 0.3:
@@ -57,10 +58,10 @@ def native_gate(rng, n):
             return rec("GlobalPhase", [], [rng.randint(-(N - 1), N - 1)])
 
 
-def decode(r, labels):
+def decode(r, labels, m=M):
     if r["g"] == "GlobalPhase" and not r["mods"]:
-        return qp.GlobalPhase(lib.angle_of(r["p"][0], M))
-    return decode_gate(r, M, labels)
+        return qp.GlobalPhase(lib.angle_of(r["p"][0], m))
+    return decode_gate(r, m, labels)
 
 
 def single_gate_cases():
@@ -74,13 +75,13 @@ def single_gate_cases():
             out.append([rec(g, [w], mods=[{"t": "adj"}])])
     for g in NATIVE1:
         for w in itertools.permutations(range(1, 4), ARITY[g]):
-            for a in (3, -10, 29):
+            for a in (3, -10):
                 out.append([rec(g, list(w), [a])])
     for g, k in NATIVEP.items():
         for w in range(1, 4):
-            for p in ((3, 26, -7), (-12, 5, 30), (17, -1, 8)):
+            for p in ((3, 13, -7), (-12, 5, 2)):
                 out.append([rec(g, [w], list(p[:k]))])
-    for a in (3, -10, 29):
+    for a in (3, -10):
         out.append([rec("Hadamard", [2]), rec("GlobalPhase", [], [a])])
     return out
 
@@ -90,10 +91,12 @@ def gen_export(tier, seed):
     cases = []
     for circ in single_gate_cases():
         cases.append({"n": 3, "circ": [("g", r) for r in circ], "labels": [0, 1, 2], "wires": None, "measure_all": True, "rotations": False,
-                      "precision": None, "meas": [("probs", [1, 2, 3])], "kind": "single", "via": "tape"})
-    nrand = 330 if tier == "quick" else 6000
+                      "precision": None, "meas": [("probs", [1, 2, 3])], "kind": "single", "via": "tape", "M": M})
+    nrand = 280 if tier == "quick" else 6000
     for i in range(nrand):
         kind = rng.choice(["native", "native", "native", "decomp", "mcm"])
+        m = M_FINE if (kind == "decomp" and tier != "quick" and rng.random() < 0.5) else M
+        NN = 1 << m
         n = rng.choice([1, 2, 2, 3, 3, 3, 4])
         nmcm = 0
         circ = []
@@ -102,7 +105,7 @@ def gen_export(tier, seed):
             n = rng.choice([1, 2, 2, 3])
         for _ in range(L):
             if kind == "decomp" and rng.random() < 0.5:
-                g = devsim.random_gate(rng, n, M, DECOMP_KINDS)
+                g = devsim.random_gate(rng, n, m, DECOMP_KINDS)
                 if rng.random() < 0.75:
                     g = dict(g, p=[a - (a % 2) for a in g["p"]])       # most decompositions halve the angle
                 circ.append(("g", g))
@@ -110,9 +113,9 @@ def gen_export(tier, seed):
                 nmcm += 1
                 circ.append(("m", rng.randint(1, n), nmcm))
             elif kind == "mcm" and nmcm and rng.random() < 0.45:
-                circ.append(("c", native_gate(rng, n), rng.randint(1, nmcm)))
+                circ.append(("c", native_gate(rng, n, NN), rng.randint(1, nmcm)))
             else:
-                circ.append(("g", native_gate(rng, n)))
+                circ.append(("g", native_gate(rng, n, NN)))
         labels = devsim.labels_for(rng, n)
         r = rng.random()
         wires, wkind = None, "default"
@@ -141,23 +144,23 @@ def gen_export(tier, seed):
         if not any(it[0] != "g" or it[1]["w"] for it in circ) and all(m[0] == "state" for m in meas):
             wires, wkind = None, "default"          # a circuit without wires is exported as the bare header
         cases.append({"n": n, "circ": circ, "labels": labels, "wires": wires, "wkind": wkind, "measure_all": rng.random() < 0.5,
-                      "rotations": rotations, "precision": rng.choice([None, None, 3, 5, 8]), "meas": meas, "kind": kind,
+                      "rotations": rotations, "precision": rng.choice([None, None, 3, 5, 8]), "meas": meas, "kind": kind, "M": m,
                       "via": "qnode" if (i % 9 == 0 and kind != "mcm") else "tape"})
     return cases
 
 
 def build_tape(c):
-    labels = c["labels"]
+    labels, lvl = c["labels"], c["M"]
 
     def fn():
         mvs = {}
         for it in c["circ"]:
             if it[0] == "g":
-                decode(it[1], labels)
+                decode(it[1], labels, lvl)
             elif it[0] == "m":
                 mvs[it[2]] = qp.measure(labels[it[1] - 1])
             else:
-                qp.cond(mvs[it[2]], lambda r=it[1]: decode(r, labels))()
+                qp.cond(mvs[it[2]], lambda r=it[1]: decode(r, labels, lvl))()
         out = []
         for m in c["meas"]:
             if m[0] in ("expval", "var"):
@@ -210,7 +213,7 @@ def expected_side(c):
             if m[0] in ("expval", "var"):
                 for w, p in m[1]:
                     for r in PAULI_REF[p]:
-                        a.append(gate_ins(dict(r, w=[pos[labels[w - 1]]])))
+                        a.append(gate_ins(dict(r, w=[pos[labels[w - 1]]], p=[x * (1 << (c["M"] - M)) for x in r["p"]])))
     me = list(range(len(regs))) if c["measure_all"] else [pos[w] - 1 for w in measured]
     return a, len(regs), me, sum(1 for it in c["circ"] if it[0] == "m")
 
@@ -239,13 +242,14 @@ def run_generator(tier, seed):
     """-> (abstract programs, TLC stats)"""
     progs, st = [], {"generated": 0, "distinct": 0, "wall_s": 0.0, "runs": 0}
     kinds_all = '{"gate", "meas", "reset", "cond", "ifelse"}'
+    a1 = "{1, 3, 6, 10, 13, 15}"
     if tier == "quick":
-        runs = [("ex1", dict(NQ=3, Ang1="{3, 26}", Ang2="{6, 27}", MaxLen=1, MaxAnc=0, Kinds='{"gate"}', Depth2="FALSE"), None),
-                ("sim", dict(NQ=3, Ang1="{1, 3, 6, 13, 26, 31}", Ang2="{3, 6, 27}", MaxLen=6, MaxAnc=2, Kinds=kinds_all, Depth2="TRUE"), 130)]
+        runs = [("ex1", dict(NQ=3, Ang1="{3}", Ang2="{1, 3, 6, 13}", NTup=2, MaxLen=1, MaxAnc=0, Kinds='{"gate"}', Depth2="FALSE"), None),
+                ("sim", dict(NQ=3, Ang1=a1, Ang2="{1, 3, 6, 13}", NTup=4, MaxLen=6, MaxAnc=2, Kinds=kinds_all, Depth2="TRUE"), 110)]
     else:
-        runs = [("ex1", dict(NQ=3, Ang1="{3, 10, 21, 26}", Ang2="{6, 27}", MaxLen=1, MaxAnc=0, Kinds='{"gate"}', Depth2="TRUE"), None),
-                ("sim", dict(NQ=3, Ang1="{1, 3, 6, 13, 26, 31}", Ang2="{3, 6, 27}", MaxLen=6, MaxAnc=2, Kinds=kinds_all, Depth2="TRUE"), 2500),
-                ("sim2", dict(NQ=2, Ang1="{1, 3, 6, 13, 26, 31}", Ang2="{3, 6, 27}", MaxLen=9, MaxAnc=3, Kinds=kinds_all, Depth2="TRUE"), 1200)]
+        runs = [("ex1", dict(NQ=3, Ang1="{3, 10}", Ang2="{1, 3, 6, 13}", NTup=3, MaxLen=1, MaxAnc=0, Kinds='{"gate"}', Depth2="TRUE"), None),
+                ("sim", dict(NQ=3, Ang1=a1, Ang2="{1, 3, 6, 13}", NTup=4, MaxLen=6, MaxAnc=2, Kinds=kinds_all, Depth2="TRUE"), 2500),
+                ("sim2", dict(NQ=2, Ang1=a1, Ang2="{1, 3, 6, 13}", NTup=4, MaxLen=9, MaxAnc=3, Kinds=kinds_all, Depth2="TRUE"), 1200)]
     for name, consts, nsim in runs:
         consts = dict(consts, M=3)      # the grammar does not evaluate matrices: any ring level
         kw = dict(simulate=f"num={nsim}", depth=12 * consts["MaxLen"] + 12, seed=seed + 11, workers=1) if nsim else {}
@@ -263,13 +267,14 @@ def run_generator(tier, seed):
 
 
 def self_check(tier):
-    grid = "{6, 28}" if tier == "quick" else "{0, 2, 6, 12, 22, 28}"
+    """QelibSelf: the table against the qelib1.inc / stdgates.inc definitions (quick: level 4, thorough: level 5)"""
+    m, grid = (M, "{2, 6, 12}") if tier == "quick" else (M_FINE, "{0, 2, 6, 12, 22, 28}")
     invs = ["TableUnitary", "DefAgreesWithTable", "SxIsRootOfX"]
-    r = lib.run_tlc("QelibSelf", lib.cfg(constants={"M": M, "Grid": grid}, invariants=invs), lib.workdir(PID, "self"))
+    r = lib.run_tlc("QelibSelf", lib.cfg(constants={"M": m, "Grid": grid}, invariants=invs), lib.workdir(PID, "self"))
     lib.require_ok(r, "QelibSelf")
     if r.invariant_violated:
         raise lib.MachineryError(f"the OpenQASM gate table disagrees with its definitions: {r.invariant_violated}\n{r.out[-1500:]}")
-    neg = lib.run_tlc("QelibSelf", lib.cfg(constants={"M": M, "Grid": "{6}"}, invariants=["NegControl"]), lib.workdir(PID, "selfneg"))
+    neg = lib.run_tlc("QelibSelf", lib.cfg(constants={"M": 3, "Grid": "{2}"}, invariants=["NegControl"]), lib.workdir(PID, "selfneg"))
     if neg.invariant_violated != "NegControl":
         raise lib.MachineryError("QelibSelf negative control was not rejected")
     return {"generated": r.generated + neg.generated, "distinct": r.distinct + neg.distinct, "table_cases": r.distinct // 2}
@@ -278,7 +283,7 @@ def self_check(tier):
 def run(tier, seed):
     rng = random.Random(670 + seed)
     tstats = self_check(tier)
-    viol, cases, meta = [], [], []
+    viol, cases, meta, level = [], [], [], []
     counts = {"export_calls": 0, "export_rejected_unsupported": 0, "export_off_lattice_skipped": 0, "gphase_statements_in_2.0_programs": 0,
               "export_mcm": 0, "export_rotations": 0, "export_wires_arg": 0, "export_precision": 0, "export_too_wide_skipped": 0,
               "import_calls": 0, "import_cond": 0, "import_reset": 0, "import_modified": 0}
@@ -303,7 +308,7 @@ def run(tier, seed):
             continue
         try:
             rd = qasmio.read_qasm2(text)
-            b, mp, kp, problems = qasmio.program_side(rd, M, c["precision"])
+            b, mp, kp, problems = qasmio.program_side(rd, c["M"], c["precision"])
             if problems:
                 raise ReaderError(problems[0])
         except ReaderError as e:
@@ -321,6 +326,7 @@ def run(tier, seed):
         cases.append({"n": nreg, "k": max(k, kp), "a": a, "b": b, "rel": "diag" if c["rotations"] else "phase",
                       "nq": rd["qreg"][1] if rd["qreg"] else 0, "enq": nreg, "mp": mp, "me": me, "ncreg": rd["cregs"].get("c", 0)})
         meta.append(("export", c, text))
+        level.append(c["M"])
         texts.add(text)
         if len(samples) < 2 and c["kind"] in ("mcm", "native") and len(c["circ"]) >= 4 and c["wires"] is not None:
             samples.append({"direction": "export", "options": {k_: c[k_] for k_ in ("wires", "measure_all", "rotations", "precision")},
@@ -353,6 +359,7 @@ def run(tier, seed):
         cases.append({"n": p["n"], "k": max(k, p["k"]), "a": a, "b": p["b"], "rel": "phase", "nq": p["n"], "enq": p["n"], "mp": [], "me": [],
                       "ncreg": 0})
         meta.append(("import", p, text, wmap, [str(o) for o in tape.operations]))
+        level.append(M)
         texts.add(text)
         if p["mode"] != "ex1" and sum(1 for s in samples if s["direction"] == "import") < 2 and p["k"] > 0:
             samples.append({"direction": "import", "program": text.splitlines(), "wire_map": wmap, "imported_tape": [str(o) for o in tape.operations]})
@@ -385,13 +392,21 @@ def run(tier, seed):
         neg[len(cases)] = (k0, want)
         cases.append(bad)
         meta.append(("NEG",))
+        level.append(level[k0])
     # ------------------------------------------------------------------ TLC decides
-    wd = lib.workdir(PID, "trace")
     import json
-    (wd / "cases.json").write_text(json.dumps(cases))
-    r = lib.run_tlc("Trace_Qasm", lib.cfg(constants={"M": M, "NCASES": len(cases)}), wd, env={"TRACE_FILE": str(wd / "cases.json")}, timeout=3000)
-    lib.require_ok(r, "Trace_Qasm")
-    verdict = {t[1] - 1: t[2] for t in r.tuples if t[0] == "V"}
+    verdict, tr_gen, tr_dist = {}, 0, 0
+    for m in sorted(set(level)):
+        idx = [i for i, lv in enumerate(level) if lv == m]
+        wd = lib.workdir(PID, f"trace{m}")
+        (wd / "cases.json").write_text(json.dumps([cases[i] for i in idx]))
+        r = lib.run_tlc("Trace_Qasm", lib.cfg(constants={"M": m, "NCASES": len(idx)}), wd, env={"TRACE_FILE": str(wd / "cases.json")}, timeout=3000)
+        lib.require_ok(r, f"Trace_Qasm level {m}")
+        for t in r.tuples:
+            if t[0] == "V":
+                verdict[idx[t[1] - 1]] = t[2]
+        tr_gen += r.generated
+        tr_dist += r.distinct
     if len(verdict) != len(cases):
         raise lib.MachineryError(f"verdicts are not total: {len(verdict)} of {len(cases)}")
     nneg = 0
@@ -438,7 +453,7 @@ def run(tier, seed):
             key = f"import:{v}:{hit[0] if hit else (sg[0] if len(sg) == 1 else 'program')}"
             viol.append(Violation(key=key, detail=f"from_qasm3 (wire_map={m[3]}) imported\n{text}as {m[4]}: TLC verdict {v}",
                                   replay={"program": text, "wire_map": m[3], "imported": m[4], "tlc_case": cases[ti]}))
-    cov = {"states": r.distinct + gstats["distinct"] + tstats["distinct"], "transitions": r.generated + gstats["generated"] + tstats["generated"],
+    cov = {"states": tr_dist + gstats["distinct"] + tstats["distinct"], "transitions": tr_gen + gstats["generated"] + tstats["generated"],
            "traces_validated_against_impl": n_export + (len(meta) - n_export - len(neg)), "evaluations": counts["export_calls"] + counts["import_calls"],
            "distinct_nontrivial": len(texts),
            "rule": "non-trivial = distinct program texts (exported or imported) that reached TLC's verdict; export: every exportable gate "
@@ -450,7 +465,7 @@ def run(tier, seed):
            "generator": {k_: v_ for k_, v_ in gstats.items() if k_ not in ("generated", "distinct")},
            "table_cases_model_checked": tstats["table_cases"], "negative_controls_rejected": nneg + 1, "ring_level_M": M, **counts}
     return CheckResult(coverage=cov, violations=viol, assumptions=[
-        "angles on the lattice 4*pi/32; decomposed gates whose exported angles leave the lattice are counted and skipped",
+        "angles on the lattice 4*pi/16 (thorough: decomposed gates also on 4*pi/32); decomposed gates whose exported angles leave the lattice are counted and skipped",
         "standard-library gate names denote their standard matrices (Qelib1.tla); relations are up to a global phase",
         "the OpenQASM 2.0 reader is the openqasm3 reference parser (accepts the non-2.0 statement `gphase(x) ;` the exporter emits for GlobalPhase: counted)",
         "qp.from_qasm needs the pennylane-qiskit plugin, which is not installed: only from_qasm3 is exercised",
